@@ -544,6 +544,36 @@ pub fn run(_args: &[String]) -> i32 {
 			mach = e.machinery_error.clone();
 		}
 		samples.extend(e.sample_paths.iter().take(2).map(|p| json!({"base": base, "path": p})));
+		// directed histories (both tiers, not subject to the BFS wall cap): every operation, then a
+		// block, then a refresh of A under either active account or of B
+		{
+			let all_ops = M { base, reduced: false }.ops(&World::open(&{
+				let d = format!("{}/c04-dops", root);
+				m.init(&d);
+				d
+			}));
+			let mut dpaths: Vec<Vec<Op>> = vec![];
+			for o in all_ops.iter() {
+				for mine in [Op::MineA0, Op::MineM].iter() {
+					dpaths.push(vec![o.clone(), mine.clone(), Op::RefreshA]);
+					dpaths.push(vec![o.clone(), mine.clone(), Op::SwitchA, Op::RefreshA]);
+					dpaths.push(vec![o.clone(), mine.clone(), Op::RefreshB]);
+				}
+			}
+			let res = par_map(&dpaths, workers(), |i, p| run_path(&m, &format!("{}/c04-{}-d{}", root, tag, i), p));
+			for (p, r) in dpaths.iter().zip(res.into_iter()) {
+				transitions += p.len();
+				match r {
+					Ok(problems) => {
+						for (k, v) in problems {
+							rep.add_finding(Finding { key: format!("C04/{}", k), what: format!("{} — after {:?} (base {})", v, p, base), replay: json!({"kind": format!("base{}", base), "path": p}) });
+						}
+					}
+					Err(e) => mach = Some(format!("directed path {:?}: {}", p, e)),
+				}
+			}
+			rep.cov(&format!("directed_paths_base{}", base), json!(dpaths.len()));
+		}
 		// node-fault enumeration on every state reachable within depth 1 (quick) / 2 (thorough)
 		let ops = m.ops(&World::open(&{
 			let d = format!("{}/c04-ops", root);
